@@ -16,30 +16,30 @@ pub const MAX_HELD: usize = 1 << 56;
 /// Check every logged request against the limit / alignment floor / size floor.
 /// `i` is a symbolic log index, so one call covers every entry.
 unsafe fn check_log<const M: usize>(layout: Layout, limit: Option<usize>, held: usize) {
-    assert!(NLOG <= LOGN, "[C09] more requests than the log holds (bound)");
+    vassert!(NLOG <= LOGN, "NEVER: [C09] more requests than the log holds (bound)");
     let i: usize = kani::any();
     if !(i < NLOG && i < LOGN) {
         return;
     }
     let (rs, ra) = LOG[i];
-    assert!(ra.is_power_of_two() && ra >= 16 && ra >= M && ra >= layout.align(),
-            "[C04] chunk requested with an alignment below max(16, MIN_ALIGN, request)");
-    assert!(rs >= FOOTER_SIZE && rs - FOOTER_SIZE >= layout.size(), "[C01] chunk requested that cannot hold the request");
-    assert!(rs <= isize::MAX as usize, "[C19] chunk request above isize::MAX reached the global allocator");
+    vassert!(ra.is_power_of_two() && ra >= 16 && ra >= M && ra >= layout.align(),
+            "NEVER: [C04] chunk requested with an alignment below max(16, MIN_ALIGN, request)");
+    vassert!(rs >= FOOTER_SIZE && rs - FOOTER_SIZE >= layout.size(), "NEVER: [C01] chunk requested that cannot hold the request");
+    vassert!(rs <= isize::MAX as usize, "NEVER: [C19] chunk request above isize::MAX reached the global allocator");
     if let Some(l) = limit {
         // bytes held for allocation after the acquisition = held + usable size of the new chunk
         let usable = rs - FOOTER_SIZE;
-        assert!(held <= l && usable <= l - held,
-                "[C07] chunk requested from the global allocator that would exceed the allocation limit");
+        vassert!(held <= l && usable <= l - held,
+                "NEVER: [C07] chunk requested from the global allocator that would exceed the allocation limit");
     }
     if limit.is_none() {
         // "as if the feature did not exist": without a limit the arena never asks for less than
         // max(request, default chunk)
-        assert!(rs - FOOTER_SIZE >= DEFAULT, "[C07,C18] arena without a limit asked for a chunk below the default size");
+        vassert!(rs - FOOTER_SIZE >= DEFAULT, "NEVER: [C07,C18] arena without a limit asked for a chunk below the default size");
     }
     // halving: requests never grow
     if i + 1 < NLOG && i + 1 < LOGN {
-        assert!(LOG[i + 1].0 <= rs, "[C18] a later attempt asked for more than an earlier one");
+        vassert!(LOG[i + 1].0 <= rs, "NEVER: [C18] a later attempt asked for more than an earlier one");
     }
 }
 
@@ -73,24 +73,24 @@ pub fn f4_decide<const M: usize>() {
 
         let r = bump.alloc_layout_slow(layout);
 
-        assert!(r.is_none(), "[C09] success although the global allocator refused everything");
-        assert!(bump.current_chunk_footer.get() == NonNull::from(&f), "[C09] current chunk changed by a failed request");
-        assert!(f.allocated_bytes == held, "[C08] accounting changed by a failed request");
-        assert!(empty_is_pristine(), "[C20] shared static sentinel modified");
+        vassert!(r.is_none(), "NEVER: [C09] success although the global allocator refused everything");
+        vassert!(bump.current_chunk_footer.get() == NonNull::from(&f), "NEVER: [C09] current chunk changed by a failed request");
+        vassert!(f.allocated_bytes == held, "NEVER: [C08] accounting changed by a failed request");
+        vassert!(empty_is_pristine(), "NEVER: [C20] shared static sentinel modified");
         check_log::<M>(layout, limit, held);
         if NLOG > 0 {
             let first = LOG[0].0 - FOOTER_SIZE;
             // C18 lemma 3: doubling, whenever the doubled size is admissible
             if limit.is_none() && 2 * usable + 4096 + FOOTER_SIZE <= isize::MAX as usize {
-                assert!(first >= 2 * usable, "[C18] first attempt below twice the current chunk");
+                vassert!(first >= 2 * usable, "NEVER: [C18] first attempt below twice the current chunk");
             }
-            assert!(first >= layout.size(), "[C18] first attempt below the request");
+            vassert!(first >= layout.size(), "NEVER: [C18] first attempt below the request");
         }
         if limit.is_none() {
             // "as if the feature did not exist": without a limit something is always attempted
             // unless no admissible size exists at all
             if layout.size() <= (isize::MAX as usize) - 8192 && 2 * usable <= (isize::MAX as usize) - 8192 {
-                assert!(NLOG >= 1, "[C07] no attempt although no limit is set");
+                vassert!(NLOG >= 1, "NEVER: [C07] no attempt although no limit is set");
             }
         }
         kani::cover!(NLOG >= 3, "REACH: three or more halving attempts");
@@ -120,13 +120,13 @@ pub fn f4_fresh<const M: usize, const ZST: bool>() {
             kani::assume(layout.size() >= 1 && layout.size() <= 4096);
         }
         let r = bump.alloc_layout_slow(layout);
-        assert!(r.is_none(), "[C09] success although the global allocator refused everything");
-        assert!(bump.current_chunk_footer.get() == empty_footer(), "[C09] current chunk changed by a failed request");
-        assert!(empty_is_pristine(), "[C20] shared static sentinel modified");
+        vassert!(r.is_none(), "NEVER: [C09] success although the global allocator refused everything");
+        vassert!(bump.current_chunk_footer.get() == empty_footer(), "NEVER: [C09] current chunk changed by a failed request");
+        vassert!(empty_is_pristine(), "NEVER: [C20] shared static sentinel modified");
         check_log::<M>(layout, limit, 0);
         if limit.is_none() {
-            assert!(NLOG >= 1, "[C07] no attempt although no limit is set");
-            assert!(LOG[0].0 - FOOTER_SIZE >= DEFAULT, "[C18] first chunk below the default size");
+            vassert!(NLOG >= 1, "NEVER: [C07] no attempt although no limit is set");
+            vassert!(LOG[0].0 - FOOTER_SIZE >= DEFAULT, "NEVER: [C18] first chunk below the default size");
         }
         kani::cover!(limit.map_or(false, |l| l < DEFAULT) && NLOG >= 1, "REACH: small-limit bypass asked for a chunk below the default size");
         kani::cover!(limit.map_or(false, |l| l < DEFAULT) && NLOG >= 3, "REACH: small-limit bypass, several attempts");
